@@ -445,7 +445,7 @@ theorem blocked_commands_refused : ∀ n ∈ refusedNames, n ∈ Gen.luaBlocked 
 /-- Commands that would block, reach another connection, the replication link or the process and
     are not in the refusal arms are unreachable all the same: the executor does not know them. -/
 theorem unreachable_commands_unknown_to_executor :
-    ∀ n ∈ ["BRPOPLPUSH", "BLMOVE", "BLMPOP", "WAIT", "HELLO", "PUBLISH", "SYNC", "PSYNC", "REPLICAOF", "SLAVEOF",
+    ∀ n ∈ ["BRPOPLPUSH", "BLMOVE", "BLMPOP", "WAIT", "HELLO", "SYNC", "PSYNC", "REPLICAOF", "SLAVEOF",
            "REPLCONF", "SLEEP", "VERIF", "SLOWLOG", "MEMORY", "COMMAND", "FUNCTION", "FCALL", "MODULE"],
       n ∉ Gen.luaExecutorCommands := by decide
 
